@@ -89,8 +89,8 @@ func Normalize(dict map[string]any, env types.Mapping) (map[string]any, error) {
 
 			for _, namespace := range []string{"network_mode", "ipc", "pid", "uts", "cgroup"} {
 				if n, ok := service[namespace]; ok {
-					ref := n.(string)
-					if strings.HasPrefix(ref, types.ServicePrefix) {
+					ref, ok := n.(string)
+					if ok && strings.HasPrefix(ref, types.ServicePrefix) {
 						shared := ref[len(types.ServicePrefix):]
 						if _, ok := dependsOn[shared]; !ok {
 							dependsOn[shared] = map[string]any{
